@@ -583,7 +583,33 @@ func c17SubVxHash(r *Rng) func(dst, other *vortex.Hash, kind string) bool {
 
 // c17VxMake commits to a seeded random matrix, opens it at (x, alpha) on the selected columns with the
 // real prover and returns the verifier input with the true claimed values.
-func c17VxMake(r *Rng, numCol, numRow, rate int, sel []int, zeroRows bool) (*c17Vx, [][]koalabear.Element, error) {
+// c17VxPoint: evaluation points by their position relative to the codeword domain <g> of size N (the verifier interpolates a
+// word given on that domain and special-cases "x is a point of the domain"):
+//
+//	"rand"    a random element of the extension
+//	"domain"  g^i itself (in the base field)
+//	"near"    g^i (1 + e) with e in the extension and a zero base coordinate: x / g^i - 1 = e is not zero, its first coordinate is
+//	"base"    a base-field element off the domain
+func c17VxPoint(r *Rng, kind string, N int) fext.E4 {
+	g, _ := kbfft.Generator(uint64(N))
+	var gi koalabear.Element
+	gi.Exp(g, big.NewInt(int64(1+r.Intn(N-1))))
+	switch kind {
+	case "domain":
+		return fext.E4{B0: fext.E2{A0: gi}}
+	case "near":
+		e := c17e4Rand(r)
+		e.B0.A0.SetOne() // 1 + e with e.B0.A0 = 0
+		var x fext.E4
+		x.MulByElement(&e, &gi)
+		return x
+	case "base":
+		return fext.E4{B0: fext.E2{A0: c17kbRand(r)}}
+	}
+	return c17e4Rand(r)
+}
+
+func c17VxMake(r *Rng, numCol, numRow, rate int, sel []int, zeroRows bool, xkind ...string) (*c17Vx, [][]koalabear.Element, error) {
 	sisParams, err := sis.NewRSis(int64(r.U64()%1000), 9, 16, numRow)
 	if err != nil {
 		return nil, nil, err
@@ -594,6 +620,9 @@ func c17VxMake(r *Rng, numCol, numRow, rate int, sel []int, zeroRows bool) (*c17
 	}
 	m := make([][]koalabear.Element, numRow)
 	x, alpha := c17e4Rand(r), c17e4Rand(r)
+	if len(xkind) > 0 {
+		x = c17VxPoint(r, xkind[0], numCol*rate)
+	}
 	ys := make([]fext.E4, numRow)
 	for i := range m {
 		m[i] = make([]koalabear.Element, numCol)
@@ -658,13 +687,19 @@ func c17Vortex(cfg *c17Cfg) {
 		numCol, numRow, rate int
 		sel                  []int
 		zero                 bool
+		xkind                string
 	}
 	sizes := []size{
-		{2, 1, 2, []int{0, 3}, false},          // minimal: two columns, one row
-		{4, 3, 4, []int{1, 6, 15}, false},      // non-power-of-two number of rows
-		{16, 8, 2, []int{0, 5, 9, 31}, false},  // the size of the package's own tests
-		{8, 5, 8, []int{2, 63, 17, 40}, false}, // rate 8
-		{16, 8, 2, []int{0, 1, 2, 3}, true},    // zero matrix
+		{2, 1, 2, []int{0, 3}, false, ""},          // minimal: two columns, one row
+		{4, 3, 4, []int{1, 6, 15}, false, ""},      // non-power-of-two number of rows
+		{16, 8, 2, []int{0, 5, 9, 31}, false, ""},  // the size of the package's own tests
+		{8, 5, 8, []int{2, 63, 17, 40}, false, ""}, // rate 8
+		{16, 8, 2, []int{0, 1, 2, 3}, true, ""},    // zero matrix
+		// evaluation points on, next to and off the codeword domain
+		{4, 3, 4, []int{1, 6, 15}, false, "near"},
+		{4, 2, 2, []int{0, 5}, false, "domain"},
+		{8, 2, 2, []int{3, 12}, false, "base"},
+		{8, 3, 4, []int{2, 30}, false, "near"},
 	}
 	if cfg.thorough() {
 		for i := 0; i < 6; i++ {
@@ -675,9 +710,9 @@ func c17Vortex(cfg *c17Cfg) {
 			for k := range sel {
 				sel[k] = r.Intn(nc * rate)
 			}
-			sizes = append(sizes, size{nc, 1 + r.Intn(9), rate, sel, false})
+			sizes = append(sizes, size{nc, 1 + r.Intn(9), rate, sel, false, ""})
 		}
-		sizes = append(sizes, size{64, 16, 2, []int{0, 127, 64, 33, 90, 5}, false})
+		sizes = append(sizes, size{64, 16, 2, []int{0, 127, 64, 33, 90, 5}, false, ""})
 	}
 	cs := c17Case[c17Vx]{
 		fn:     "vortex.Params.Verify",
@@ -687,7 +722,11 @@ func c17Vortex(cfg *c17Cfg) {
 	}
 	for _, sz := range sizes {
 		tr.scenario("vortex")
-		a, m, err := c17VxMake(r, sz.numCol, sz.numRow, sz.rate, sz.sel, sz.zero)
+		var xk []string
+		if sz.xkind != "" {
+			xk = []string{sz.xkind}
+		}
+		a, m, err := c17VxMake(r, sz.numCol, sz.numRow, sz.rate, sz.sel, sz.zero, xk...)
 		if err != nil {
 			tr.emit("Prove", Ev{"err": c17msg(err), "numCol": sz.numCol, "numRow": sz.numRow, "rate": sz.rate})
 			continue
